@@ -3,20 +3,22 @@
 # to /repo, run EVERY claimed check, undo. A refactoring must leave every check silent (exit 0): anything else is a false alarm.
 set -u
 VERIF="$(cd "$(dirname "$0")/.." && pwd)"
+# VALIDATION_REPO: a scratch git worktree of /repo to work in instead of /repo itself (so that several shards can run side by side)
+REPO="${VALIDATION_REPO:-/repo}"; [ "$REPO" != /repo ] && export HRSIM_REPO="$REPO"
 TIER=quick
 if [ "${1:-}" = "--tier" ]; then TIER="$2"; shift 2; fi
 ids=("$@"); [ ${#ids[@]} -eq 0 ] && ids=($(ls "$VERIF/refactorings"))
-[ -z "$(git -C /repo status --porcelain)" ] || { echo "/repo is not clean" >&2; exit 2; }
+[ -z "$(git -C "$REPO" status --porcelain)" ] || { echo "$REPO is not clean" >&2; exit 2; }
 for id in "${ids[@]}"; do
   d="$VERIF/refactorings/$id"
-  git -C /repo apply "$d/patch.diff" 2>/dev/null || { echo "$id: patch does not apply"; continue; }
-  if ! ( cd /repo && go test -count=1 ./... >/dev/null 2>&1 && cd cmd/hranoprovod-cli && go test -count=1 ./... >/dev/null 2>&1 ); then echo "$id: suite fails"; fi
+  git -C "$REPO" apply "$d/patch.diff" 2>/dev/null || { echo "$id: patch does not apply"; continue; }
+  if ! ( cd "$REPO" && go test -count=1 ./... >/dev/null 2>&1 && cd cmd/hranoprovod-cli && go test -count=1 ./... >/dev/null 2>&1 ); then echo "$id: suite fails"; fi
   res=""
   for chk in $(jq -r '.checks[].property_id' "$VERIF/MANIFEST.json"); do
     out=$("$VERIF/check" "$chk" --tier "$TIER" 2>&1); rc=$?
     if [ $rc -eq 0 ]; then res="$res $chk:ok"; else res="$res $chk:rc=$rc"; echo "$out" | grep -E '^hrsim: C[0-9]+ [a-z]|VIOLATION|hrsim-build|rror' | head -5 | cut -c1-300; fi
   done
   echo "$id:$res"
-  git -C /repo apply -R "$d/patch.diff"; git -C /repo clean -fdq >/dev/null 2>&1
-  git -C /repo status --porcelain | grep -q . && { echo "could not undo $id" >&2; git -C /repo status --short; exit 2; }
+  git -C "$REPO" apply -R "$d/patch.diff"; git -C "$REPO" clean -fdq >/dev/null 2>&1
+  git -C "$REPO" status --porcelain | grep -q . && { echo "could not undo $id" >&2; git -C "$REPO" status --short; exit 2; }
 done
